@@ -37,8 +37,8 @@ CONSTANTS NCallers,    \* callers are 1..NCallers
           EmitCases,   \* role 2: record the projection of the behaviour replayed by the harness; the
                        \* read timeout may then fire only after `timeoutAt` server answers (scripted)
           Conducted    \* role 2: environment steps (start a call, Close, a server answer, the read
-                       \* timeout) happen only when the client is quiescent, except that goroutine
-                       \* spawns may come in bursts - the schedules a conductor can reproduce exactly
+                       \* timeout) happen only when the client is quiescent, except that calls may be
+                       \* started in bursts - the schedules a conductor can reproduce exactly
 
 Callers == 1..NCallers
 None == 0                 \* b.lock is free
@@ -262,7 +262,9 @@ Script == UNCHANGED <<faultAt, timeoutAt>>
 Int(A) == A /\ burst' = FALSE /\ Script /\ UNCHANGED nans      \* a step of the client's own goroutines
 EStart(c) == /\ Start(c) /\ (Conducted => LowestStartable(c))
              /\ EnvOK(TRUE) /\ burst' = Conducted /\ Script /\ UNCHANGED nans
-ECloseStart == CloseStart /\ EnvOK(TRUE) /\ burst' = Conducted /\ Script /\ UNCHANGED nans
+\* (conducted: Close is started at quiescent points only - against outstanding and blocked calls; a
+\* spawn burst mixing Close and calls is a race no conductor can steer, simulation covers those)
+ECloseStart == CloseStart /\ EnvOK(FALSE) /\ burst' = FALSE /\ Script /\ UNCHANGED nans
 EServer(k) == Server(k) /\ EnvOK(FALSE) /\ burst' = FALSE /\ Script /\ nans' = nans + 1
 ETimeout == RecvTimeout /\ EnvOK(FALSE) /\ burst' = FALSE /\ Script /\ UNCHANGED nans
 
